@@ -1064,6 +1064,9 @@ def gen_handle_case(rng, i):
         prog.append([rng.choice(obs)])
     return {"scheme": scheme, "on": names, "kinds": kinds, "frames": frames, "indexes": idx_specs, "prog": prog,
             "rgo": rng.choice([None, 2, 3]),
+            # the directory loses its summary files before the handle is opened: the handle comes from the file listing (footers merged),
+            # and the first edit through it writes the summary
+            "nometa": rng.random() < 0.25,
             "dist": {"scheme": scheme, "n_on": n_on, "kinds": kinds, "ops": [op[0] if op[0] != "append" else "append:" + op[3] for op in prog]}}
 
 
@@ -1151,6 +1154,10 @@ def check_handle_prog(case, root, pq, ctx=None, verbose=False):
     try:
         write(root, frames[0], file_scheme=scheme, partition_on=on, row_group_offsets=case.get("rgo"), write_index=False)
         admit(frames[0])
+        if case.get("nometa"):
+            for junk in ("_metadata", "_common_metadata"):
+                os.unlink(os.path.join(root, junk))
+            last_edit = "write+summary-removed"
         pf = ParquetFile(root)
         for step, op in enumerate(case["prog"]):
             what = "step %d %s (after %s)" % (step, op[0], last_edit)
@@ -1305,7 +1312,7 @@ def _num_eq(a, b):
 
 def _replayable(case):
     if "prog" in case:
-        return {k: case[k] for k in ("scheme", "on", "kinds", "frames", "indexes", "prog", "rgo") if k in case}
+        return {k: case[k] for k in ("scheme", "on", "kinds", "frames", "indexes", "prog", "rgo", "nometa") if k in case}
     return {k: case[k] for k in ("scheme", "on", "rgo", "n", "frame", "index", "write_index") if k in case}
 
 
